@@ -111,6 +111,16 @@ func genCase(t *rapid.T) Case {
 	idx := 0
 	for i := 0; i < n; i++ {
 		op := Op{Kind: rapid.SampledFrom([]string{"post", "post", "burst", "burst", "poll", "post+poll"}).Draw(t, "kind")}
+		if c.Version >= 1 && (op.Kind == "post" || op.Kind == "burst") && rapid.IntRange(0, 5).Draw(t, "largeBinary") == 0 {
+			// several binary frames of 32 KiB and more right behind each other
+			k := rapid.IntRange(2, 4).Draw(t, "klarge")
+			for j := 0; j < k; j++ {
+				idx++
+				op.Msgs = append(op.Msgs, Msg{Binary: true, Size: rapid.SampledFrom([]int{32768, 40000, 65536, 100000}).Draw(t, "largeSize"), Seed: fmt.Sprint(idx)})
+			}
+			c.Ops = append(c.Ops, op)
+			continue
+		}
 		switch op.Kind {
 		case "post", "post+poll":
 			k := rapid.IntRange(1, 30).Draw(t, "k")
